@@ -974,8 +974,17 @@ def replay_c18(d, case):
                     Menu('other')
                 except Exception:
                     pass
+        kw = {}
+        if 'hv-absent' in tool:
+            kw['has_var'] = ['nope_field']
+        if 'hv-mixed' in tool:
+            kw['has_var'] = [F[0], 'nope_field']
+        if 'description' in tool:
+            kw['description'] = True
+        if 'every' in tool:
+            kw['every'] = True
         with contextlib.redirect_stdout(buf), contextlib.redirect_stderr(io.StringIO()):
-            Menu('plt', min_max=min_max, finest_lv=finest)
+            Menu('plt', min_max=min_max, finest_lv=finest, **kw)
         out = buf.getvalue()
         if min_max or finest:
             cells = {}
@@ -987,6 +996,12 @@ def replay_c18(d, case):
                     if ' : ' in cell:
                         name, rest = cell.split(' : ', 1)
                         name = name.strip()
+                        if kw.get('description') or kw.get('every'):
+                            # the description listing also has `name : text` lines: a table cell starts with two numbers
+                            try:
+                                float(rest.split()[0]), float(rest.split()[1])
+                            except (ValueError, IndexError):
+                                continue
                         if name:
                             count[name] = count.get(name, 0) + 1
                             cells[name] = rest.split()
@@ -1061,7 +1076,7 @@ def replay_c14(d, case):
 
 def replay_c19(d, case):
     from amr_kitchen import PlotfileCooker
-    pck = PlotfileCooker(os.path.join(d, 'plt'))
+    pck = PlotfileCooker(os.path.join(d, 'plt')) if case.get('limit') is None else PlotfileCooker(os.path.join(d, 'plt'), limit_level=case['limit'])
     fsel = eval(case['fsel'])
     try:
         sel = pck[fsel]
